@@ -206,6 +206,18 @@ def conj_list(ctx):
     raise AnalysisError(f"{g.key}: the if-chain is not emitted from an enumerate loop")
 
 
+def r3_strategy_laws(ctx):
+    from . import depgen as DG
+
+    DG.with_fallback(ctx, ("decision", "check-placement", "injection", "signature", "result"), r3_skeleton_laws)
+
+
+def r4_table_laws(ctx):
+    from . import depgen as DG
+
+    DG.with_fallback(ctx, ("decision",), r4_table_needs_disjoint_keys, configs=[c for c in DG.CONFIGS if c.startswith("keyed") or c.endswith("keyed")])
+
+
 def r3_skeleton_laws(ctx):
     dg = depgen(ctx)
     g = dg.fi
@@ -562,8 +574,8 @@ def r2(ctx):
 RULES = [
     ("C10.R1", "P1", r1, "bound before predicate"),
     ("C10.R2", "P1", r2, "a rank with any dependent member is wrapped"),
-    ("C10.R3", "P1", r3_skeleton_laws, "skeleton laws of the three strategies"),
-    ("C10.R4", "P1", r4_table_needs_disjoint_keys, "table path needs disjoint keys and one dependent position"),
+    ("C10.R3", "P1", r3_strategy_laws, "the three strategies decide as the property prescribes (abstract execution of the generator)"),
+    ("C10.R4", "P1", r4_table_laws, "table path needs disjoint keys and one dependent position"),
     ("C10.R5", "P1", r5_union_members_bound_guarded, "a predicate inside a union is bound-guarded"),
     ("C10.R6", "P1", r6_lower_rank_errors_told_apart, "'no lower rank' and 'ambiguous lower rank' are told apart"),
     ("C10.R7", "P1", r7_order_against_plain_types, "order against plain types"),
